@@ -19,6 +19,7 @@ import (
 //
 //verif:contract ~/pkg/config.NewProxyConfigurerFromMsg
 //verif:props C18
+//verif:modifies H.pkg.msg.NewProxy.ProxyType
 func verif_NewProxyConfigurerFromMsg(m *msg.NewProxy, serverCfg *v1.ServerConfig, k int) {
 	mp0, name0, type0 := serverCfg.MaxPortsPerClient, m.ProxyName, m.ProxyType
 	verif.ResetEvents()
